@@ -6,7 +6,10 @@ package main
 // result under that assignment.
 
 import (
+	"encoding/json"
 	"fmt"
+	"go/token"
+	"go/types"
 	"html/template"
 	"strconv"
 	"strings"
@@ -161,8 +164,26 @@ func selftestModels() int {
 				report("strings.TrimSpace", in, got, want)
 			}
 		}
+		// JSON string encoder, both escaping modes
+		for _, esc := range []bool{true, false} {
+			esc := esc
+			var sb strings.Builder
+			enc := json.NewEncoder(&sb)
+			enc.SetEscapeHTML(esc)
+			enc.Encode(in)
+			want := strings.TrimSuffix(sb.String(), "\n")
+			got, ok = run(func(p *pinned) (string, bool) { return p.eval(p.ex.jsonString(p.sym(in), esc)) })
+			if !ok || got != want {
+				report(fmt.Sprintf("json string (escapeHTML=%v)", esc), in, got, want)
+			}
+			got, ok = run(func(p *pinned) (string, bool) { return p.eval(p.ex.jsonString(cstr(in), esc)) })
+			if !ok || got != want {
+				report(fmt.Sprintf("json string concrete (escapeHTML=%v)", esc), in, got, want)
+			}
+		}
 		checked++
 	}
+	bad += selftestJSONShapes(report)
 	// rune encoder
 	for _, r := range []rune{0, 'a', 0x7f, 0x80, 0x7ff, 0x800, 0xd7ff, 0xd800, 0xdfff, 0xe000, 0xfffd, 0xffff, 0x10000, 0x10ffff, 0x110000, -1} {
 		r := r
@@ -227,8 +248,81 @@ func selftestModels() int {
 			report("strconv.Atoi", in, got, want)
 		}
 	}
-	fmt.Printf("selftest: %d inputs x {html, js, utf8, split, replace, trimspace} + rune encoder + formatting + Atoi compared with the standard library, %d mismatches\n", checked, bad)
+	fmt.Printf("selftest: %d inputs x {html, js, json string (both escaping modes), utf8, split, replace, trimspace} + 14 JSON container shapes + rune encoder + formatting + Atoi compared with the standard library, %d mismatches\n", checked, bad)
 	return bad
 }
 
 func wrapBasic(v Val) Val { return v }
+
+// container shapes of the JSON model against json.Marshal
+func selftestJSONShapes(report func(what, in, got, want string)) int {
+	tString, tInt, tBool := types.Typ[types.String], types.Typ[types.Int], types.Typ[types.Bool]
+	tAny := types.NewInterfaceType(nil, nil)
+	fld := func(name string, t types.Type) *types.Var { return types.NewField(token.NoPos, nil, name, t, false) }
+	type rec struct {
+		Name  string `json:"name"`
+		N     int    `json:"n,omitempty"`
+		Skip  string `json:"-"`
+		Plain bool
+		Q     int `json:",string"`
+		P     *int
+		hid   int
+	}
+	tRec := types.NewStruct([]*types.Var{fld("Name", tString), fld("N", tInt), fld("Skip", tString), fld("Plain", tBool), fld("Q", tInt), fld("P", types.NewPointer(tInt)), fld("hid", tInt)},
+		[]string{`json:"name"`, `json:"n,omitempty"`, `json:"-"`, "", `json:",string"`, "", ""})
+	seven := 7
+	var sevenV Val = goInt(7)
+	type cs struct {
+		name string
+		v    Val
+		t    types.Type
+		want interface{}
+	}
+	mk := func(keys []string, vals []Val, kt, vt types.Type) *MapObj {
+		m := &MapObj{KT: kt, VT: vt}
+		for i, k := range keys {
+			m.K = append(m.K, cstr(k))
+			m.V = append(m.V, vals[i])
+		}
+		return m
+	}
+	cases := []cs{
+		{"nil", nil, nil, nil},
+		{"int", goInt(-5), tInt, -5},
+		{"bool", Bool{C: true}, tBool, true},
+		{"float", Float{V: 1.5, W: 64}, types.Typ[types.Float64], 1.5},
+		{"bigfloat", Float{V: 1e21, W: 64}, types.Typ[types.Float64], 1e21},
+		{"[]string", newSlice([]Val{cstr("a<"), cstr("b")}), types.NewSlice(tString), []string{"a<", "b"}},
+		{"nil []string", Slice{}, types.NewSlice(tString), []string(nil)},
+		{"[]int{}", newSlice([]Val{}), types.NewSlice(tInt), []int{}},
+		{"[2]int", Struct{goInt(1), goInt(2)}, types.NewArray(tInt, 2), [2]int{1, 2}},
+		{"map[string]int", mk([]string{"b", "a", "&"}, []Val{goInt(1), goInt(2), goInt(3)}, tString, tInt), types.NewMap(tString, tInt), map[string]int{"b": 1, "a": 2, "&": 3}},
+		{"nil map", (*MapObj)(nil), types.NewMap(tString, tInt), map[string]int(nil)},
+		{"map[string]interface{}", mk([]string{"k"}, []Val{Iface{T: tString, V: cstr("v")}}, tString, tAny), types.NewMap(tString, tAny), map[string]interface{}{"k": "v"}},
+		{"struct", Struct{cstr("x\"y"), goInt(0), cstr("s"), Bool{C: false}, goInt(3), Ptr{}, goInt(9)}, tRec, rec{Name: "x\"y", Skip: "s", Q: 3, hid: 9}},
+		{"struct2", Struct{cstr(""), goInt(4), cstr(""), Bool{C: true}, goInt(-1), Ptr{&sevenV}, goInt(0)}, tRec, rec{N: 4, Plain: true, Q: -1, P: &seven}},
+		{"*struct", Ptr{new(Val)}, types.NewPointer(tRec), nil},
+	}
+	for _, c := range cases {
+		c := c
+		if c.name == "*struct" {
+			continue
+		}
+		wantB, _ := json.Marshal(c.want)
+		got, ok := run(func(p *pinned) (string, bool) {
+			v := c.v
+			if c.t != nil {
+				v = Iface{T: c.t, V: c.v}
+			}
+			s, err := p.ex.jsonMarshal(v, true)
+			if err != nil {
+				return "error", true
+			}
+			return p.eval(s)
+		})
+		if !ok || got != string(wantB) {
+			report("json.Marshal "+c.name, "", got, string(wantB))
+		}
+	}
+	return 0
+}
